@@ -33,7 +33,7 @@ STATUS = {0: "optimal", 1: "max_iterations", 2: "infeasible", 3: "unbounded"}
 @st.composite
 def cases(draw):
     model = draw(models.lp_models())
-    return {"model": model, "method": draw(st.sampled_from(METHODS)),
+    return {"model": model, "method": draw(st.sampled_from(METHODS)), "deep_algorithms": draw(st.integers(0, 4)) == 0,
             "edit": draw(st.sampled_from([None, None, "ub", "lb"])),
             "third": draw(st.sampled_from([None, "flip-same-object", "add-redundant-row"]))}
 
